@@ -83,7 +83,7 @@ InfixNCheck(n) ==
 FixLetter(f) == CASE f = "infixl" -> "L" [] f = "infixr" -> "R" [] OTHER -> "N"
 
 RECURSIVE Expr(_, _, _, _), ParseInfix(_, _, _, _, _), Nud(_, _, _, _, _), Led(_, _, _, _, _, _),
-          ListElems(_, _, _, _, _), MapPairs(_, _, _, _, _), ObjFields(_, _, _, _, _), CallArgs(_, _, _, _),
+          ListElems(_, _, _, _, _), MapPairs(_, _, _, _, _), ListOrMap(_, _, _, _), MoreElems(_, _, _, _, _), MorePairs(_, _, _, _, _), ObjFields(_, _, _, _, _), CallArgs(_, _, _, _),
           FinishCall(_, _, _, _, _)
 
 Expr(ops, toks, st, rbp) ==
@@ -129,14 +129,45 @@ Nud(ops, toks, t, pk, st) ==
          IF Peek(toks, st).k = N_colon
          THEN LET m == MustEat(toks, Eat(toks, st), N_rbr) IN
               IF ~m.ok THEN m ELSE POk([k |-> "map", ps |-> <<>>, pos |-> Span(t, m.tok)], m.st)
-         ELSE \* any(parseList, parseMap): a failed attempt rewinds the index, not the work done
-              LET l == ListElems(ops, toks, t, st, <<>>) IN
-              IF l.ok THEN l
-              ELSE LET st2 == [i |-> st.i, eats |-> l.st.eats]
-                       m == MapPairs(ops, toks, t, st2, <<>>) IN
-                   IF m.ok THEN m ELSE PErr([i |-> st.i, eats |-> m.st.eats], IF l.why = "ood" \/ m.why = "ood" THEN "ood" ELSE "list-or-map")
+         ELSE \* any(parseListOrMap): one attempt; on failure the index is rewound (the work done is not)
+              \* and the error is reported as "expect `list or map`"
+              LET l == ListOrMap(ops, toks, t, st) IN
+              IF l.ok THEN l ELSE PErr([i |-> st.i, eats |-> l.st.eats], IF l.why = "ood" THEN "ood" ELSE "list-or-map")
     [] pk.f = "obj" -> ObjFields(ops, toks, t, st, <<>>)
     [] OTHER -> PErr(st, "no-prefix")
+
+\* whether the literal is a list or a map is decided by the token after its first element
+ListOrMap(ops, toks, open, st) ==
+  IF Peek(toks, st).k = N_rbr
+  THEN LET m == MustEat(toks, st, N_rbr) IN POk([k |-> "list", els |-> <<>>, pos |-> Span(open, m.tok)], m.st)
+  ELSE LET e == Expr(ops, toks, st, 0) IN
+       IF ~e.ok THEN e
+       ELSE IF Peek(toks, e.st).k = N_colon THEN
+              LET v == Expr(ops, toks, Eat(toks, e.st), 0) IN
+              IF ~v.ok THEN v ELSE MorePairs(ops, toks, open, v.st, <<[key |-> e.node, val |-> v.node]>>)
+       ELSE MoreElems(ops, toks, open, e.st, <<e.node>>)
+\* after an element: "," (then "]" or another element) or "]"
+MoreElems(ops, toks, open, st, acc) ==
+  IF Peek(toks, st).k = N_comma THEN
+    LET st1 == Eat(toks, st) IN
+    IF Peek(toks, st1).k = N_rbr
+    THEN LET m == MustEat(toks, st1, N_rbr) IN POk([k |-> "list", els |-> acc, pos |-> Span(open, m.tok)], m.st)
+    ELSE LET e == Expr(ops, toks, st1, 0) IN IF ~e.ok THEN e ELSE MoreElems(ops, toks, open, e.st, Append(acc, e.node))
+  ELSE LET m == MustEat(toks, st, N_rbr) IN
+       IF ~m.ok THEN m ELSE POk([k |-> "list", els |-> acc, pos |-> Span(open, m.tok)], m.st)
+MorePairs(ops, toks, open, st, acc) ==
+  IF Peek(toks, st).k = N_comma THEN
+    LET st1 == Eat(toks, st) IN
+    IF Peek(toks, st1).k = N_rbr
+    THEN LET m == MustEat(toks, st1, N_rbr) IN POk([k |-> "map", ps |-> acc, pos |-> Span(open, m.tok)], m.st)
+    ELSE LET kx == Expr(ops, toks, st1, 0) IN
+         IF ~kx.ok THEN kx ELSE
+         LET c == MustEat(toks, kx.st, N_colon) IN
+         IF ~c.ok THEN c ELSE
+         LET v == Expr(ops, toks, c.st, 0) IN
+         IF ~v.ok THEN v ELSE MorePairs(ops, toks, open, v.st, Append(acc, [key |-> kx.node, val |-> v.node]))
+  ELSE LET m == MustEat(toks, st, N_rbr) IN
+       IF ~m.ok THEN m ELSE POk([k |-> "map", ps |-> acc, pos |-> Span(open, m.tok)], m.st)
 
 ListElems(ops, toks, open, st, acc) ==
   IF Peek(toks, st).k = N_rbr
